@@ -135,11 +135,13 @@ def check_a(run, args, model_args=(), vm_stride=0):
     return summary, mism
 
 
-def vm_membership(run, fix11=True):
+def vm_membership(run, fix11=True, fix_ms=True):
     """Extraction re-validation of check A (membership): the sampled pairs re-evaluated by Coq's VM.  The parameters
     record and the entry lists are printed here (independently of ocaml/composite.ml: pool4 = four children named 0..3)."""
     pool = C.coq_list(["mkSpec %d%%N NonBlocking OnSignal RWC" % i for i in range(4)])
-    P = "(mkParams %s false %s false true)" % (pool, C.coq_bool(fix11))
+    # same parameters as check A's driver (ocaml/composite.ml: pool4, fix_c09 = false, fix_c11, fix_stale = false,
+    # fix_lc = true, fix_ms = the membership test of the current code: name multisets, /repo 6a78308)
+    P = "(mkParams %s false %s false true %s)" % (pool, C.coq_bool(fix11), C.coq_bool(fix_ms))
 
     def cf(x):
         return C.coq_list([] if x == "-" else ["(%d%%N, 0%%N)" % int(n) for n in x.split(",")])
@@ -268,6 +270,7 @@ CLAUSES = {
     17: "runnable identities changed, yet ReloadWithConfig/Reload was called on a child",
     18: "failed callback, yet a child was touched", 19: "failed callback, but the state is not Error",
     30: "no Reload() in flight, but the runner does not hold the configuration most recently returned by its callback",
+    31: "at final quiescence GetChildStates() does not list the runnables of the stored configuration of any model state compatible with the trace",
     20: "Running and no reload in progress, but the running children are not exactly the configured ones",
     21: "Stop()/Reload()/Run() still blocked at final quiescence (deadlock)",
     22: "a child is still running after Run() returned",
